@@ -755,7 +755,10 @@ def object_case(tdir, nc, n, cs, ns0, f0, ops, D):
                 elif op in (1, 2):
                     sr.compress_file(keep_original=(op == 1), chunk_duration=cs / FS, n_threads=1)
                 elif op in (3, 4):
+                    was_open = sr.is_open
                     sr.decompress_file(keep_original=(op == 3), overwrite=True, n_threads=1)
+                    if op == 4 and was_open:        # the in-place variant re-opens an opened object
+                        warned = int(cap.hits > 0)
                 else:
                     sr.decompress_to_scratch(scratch_dir=w / "scratch")
             except (AssertionError, ValueError) as e:
